@@ -558,6 +558,18 @@ func (e *SpecEnv) quant(kind string, n *ast.CallExpr) Value {
 		return BoolV{And(e.Bool(l), e.Bool(r))}
 	}
 	lo, hi := e.Int(n.Args[1]), e.Int(n.Args[2])
+	if e.c.expandQuant && lo.IsConst() && hi.IsConst() && kind == "forall" {
+		// replay: concrete bounds, the quantifier is a finite conjunction of ground instances
+		if d := new(big.Int).Sub(hi.Val, lo.Val); d.IsInt64() && d.Int64() <= 64 {
+			t := TTrue
+			for v := new(big.Int).Set(lo.Val); v.Cmp(hi.Val) < 0; v = new(big.Int).Add(v, bigOne) {
+				ne := e.sub()
+				ne.bound[kid.Name] = IntV{Const(v)}
+				t = And(t, ne.Bool(n.Args[3]))
+			}
+			return BoolV{t}
+		}
+	}
 	return BoolV{e.quantTerm(kind, kid.Name, lo, hi, n.Args[3])}
 }
 
